@@ -967,6 +967,8 @@ def multibyte_token_inputs():
 # ---------------------------------------------------------------------------------------------------------
 # round 9: LENGTH scale (flat repetition, the CLI's real stack) and errors reported AT long / wide tokens
 
+HOST_RECURSION_REF = ["compiler.rs|cycle|block,class_declaration,declaration,fn_declaration,for_statement,function,if_statement,method,"
+                      "statement,try_statement,while_statement"]       # = ScanSites.host_recursion_ref
 CLI_STACK_KIB = 8192    # the CLI compiles on the main thread: 8 MiB (ulimit -s); the harness case thread has 256 MiB
 STACK_KIB = 1024        # the scale family compiles on a SMALL stack (Windows main thread: 1 MiB; Rust thread default: 2 MiB)
 SCALE_MS = 20000        # watchdog of one scale text (debug build, loaded machine)
@@ -1070,11 +1072,11 @@ def flat_text(name, pre, unit, suf, n):
 def scale_sizes(name, level, quick, unit_len=9):
     """-> (sizes for the debug build, further sizes for the release build only)"""
     if name in SLOW_DEBUG:
-        return ([300], [1000, 10000]) if quick else ([300, 1000, 2000], [5000, 10000, 30000])
+        return ([300], [1000, 10000]) if quick else ([300, 1000], [5000, 10000, 30000])
     if level == "scan":
         big = [200000] if unit_len <= 5 else []
-        return ([10000, 50000] + big, [1000]) if quick else ([300, 1000, 5000, 10000, 50000] + big, [1000000] if big else [200000])
-    return ([1000, 10000], [50000]) if quick else ([300, 1000, 5000, 10000, 30000], [50000, 100000])
+        return ([10000, 50000] + big, [1000]) if quick else ([1000, 10000, 50000] + big, [500000] if big else [200000])
+    return ([1000, 10000], [50000]) if quick else ([300, 1000, 10000, 30000], [50000])
 
 
 def scale_inputs(quick):
@@ -1092,7 +1094,19 @@ def scale_inputs(quick):
     for name, pre, unit, suf in NESTED_IN_GRAMMAR:
         for n in (100, 200):
             res.append(("scale:%s:%d" % (name, n), pre + unit * n + suf, pre + unit * 3 + suf, True, None))
+    # NESTING at the stated bound on the small stack (the 256 MiB case thread hides a frame that grew): the 18 ladder
+    # shapes at depth 200, closed form = the result at depth 2 (the :cut variants are the only users of the rng: dropped)
+    lad = dict(c for c in ladders(_NoRng(), True) if not c[0].endswith(":cut"))
+    for fam, t in lad.items():
+        f = fam.split(":")
+        if f[-1] == "200" and "ladder:%s:2" % f[1] in lad:
+            res.append(("scale:nest:%s:200" % f[1], t, lad["ladder:%s:2" % f[1]], True, None))
     return res
+
+
+class _NoRng:
+    def randint(self, a, b):
+        return a
 
 
 LINE_RE = re.compile(r'\A\[module "main", line (\d+)\]')
@@ -1142,6 +1156,11 @@ def scale_family(ctx, st, quick):
     rel = ctx.harness("release")
     dbg = ctx.harness("debug")
     small_impl = dict(zip(smalls, run_impl(rel, smalls)))
+    # the stack option must be effective (an old harness binary would ignore it and compile on 256 MiB: the whole family
+    # would be vacuous): 5000 nested parentheses - far beyond the stated bound - must overflow the small stack
+    probe = run_scale(rel, ["(" * 5000 + "1" + ")" * 5000 + ";"], STACK_KIB)[0]
+    if probe.kind != "crash":
+        ctx.broken.append("length-scale family: the harness does not compile on a %d KiB stack (`c03 stack=` ignored? probe: %s) - family vacuous" % (STACK_KIB, probe.kind))
     t0 = time.time()
     rimpl = run_scale(rel, srcs, STACK_KIB)
     t1 = time.time()
@@ -1257,6 +1276,8 @@ def error_token_inputs(rng, files, quick):
                 for kind in ("str", "interp", "interp_tail", "bare"):
                     if quick and ((kind == "interp_tail" and shift > 1) or (kind == "bare" and (shift > 1 or nb > 300))):
                         continue
+                    if nb >= 5000 and (ch != "é" or shift > 1 or kind != "str"):
+                        continue
                     toks.append(wide_token(ch, shift, nb, kind))
     toks.append('"' + "a" * 300 + '"')
     toks.append("a" * 300)
@@ -1268,7 +1289,7 @@ def error_token_inputs(rng, files, quick):
     for i, tpl in enumerate(tpls):
         for j, t in enumerate(toks):
             # every template with every (width, shift) at 2 sizes; the full product in thorough
-            if quick and (i + j) % 7 not in (0, 3):
+            if quick and (i + j) % 7 not in ((0,) if i < len(MB_TEMPLATES) else (0, 3)):
                 continue
             implonly.append(("errtoken:%s" % tpl[:12].strip(), tpl.replace("%s", t)))
     for _ in range(300 if quick else 3000):
@@ -1285,7 +1306,7 @@ def error_token_inputs(rng, files, quick):
             ps.insert(i, ("x", " " + t + " "))
         implonly.append(("errtoken:corpus", "".join(x for _, x in ps)))
     small = [c for c in implonly if len(c[1]) < 700]
-    modelled = rng.sample(small, min(len(small), 150 if quick else 1500))
+    modelled = rng.sample(small, min(len(small), 100 if quick else 1500))
     return modelled, implonly
 
 
@@ -1570,6 +1591,15 @@ def search(ctx):
     # C03_scanner_positions shows up here as a panic or as a debug/release/model disagreement)
     nsb = scanner_family(ctx, st, False)
     ctx.notes.append("search: %d scanner-position texts (full enumeration), %d through the model" % (nsb, st.get("scanbyte_modelled", 0)))
+    # a changed call cycle (C03_host_recursion): the length-scale family at the thorough sizes, small stack
+    try:
+        with open(os.path.join(yvlib.COQ, "gen", "manifest.json")) as fh:
+            rec = json.load(fh).get("c03_host_recursion")
+    except Exception:
+        rec = None
+    if rec != HOST_RECURSION_REF and len(st["viol"]) < 5:
+        n = scale_family(ctx, st, False)
+        ctx.notes.append("search: call cycles of scanner.rs / compiler.rs changed (%s): %d length-scale texts at the thorough sizes" % (rec, n))
     nk = keyword_probes(ctx, st)
     nshapes, discr, nprogs = operator_pairs(ctx, st, VALUE_SETS)
     for v in st["viol"][:5]:
